@@ -38,7 +38,8 @@ def bad(node, why):
 
 
 EXC = {"ValueError": "ValueError", "TypeError": "TypeError", "IndexError": "IndexError", "AudioIOError": "AudioIOError",
-       "AudioParameterError": "AudioParameterError", "RuntimeError": "RuntimeError", "TimeFormatError": "TimeFormatError"}
+       "AudioParameterError": "AudioParameterError", "RuntimeError": "RuntimeError", "TimeFormatError": "TimeFormatError",
+       "TooSmallBlockDuration": "TooSmallBlockDuration"}
 
 
 def zlit(n):
